@@ -935,6 +935,14 @@ func (e *escaper) escapeText(c context, n *parse.TextNode) context {
 			written = i1
 		}
 		if c.state == stateSpecialElementBody && c.element.name == "script" {
+			if lower := bytes.ToLower(s); bytes.Contains(lower, []byte("<!--")) && bytes.Contains(lower[bytes.Index(lower, []byte("<!--")):], []byte("<script")) {
+				// After "<!--" and "<script" an HTML tokenizer is in the script data double
+				// escaped state, in which "</script>" does not end the element.
+				return context{
+					state: stateError,
+					err:   errorf(ErrBadHTML, n, 0, `"<script" after "<!--" inside a script element: the end of the element cannot be determined reliably`),
+				}
+			}
 			if err := isJsTemplateBalanced(bytes.NewBuffer(s)); err != nil {
 				return context{
 					state: stateError,
